@@ -150,7 +150,9 @@ def method_dispatch_violations(prop, scratch, harness, seed, replay_cases=None):
     return out, stat["requests"]
 
 
-REV_FORMULAS = {"C11": ("SafeOps", "OpResult", "NoFalseUnimplemented", "DispatchLive", "NoneIsUnimplemented"), "C01": ("DispatchLive",)}
+REV_FORMULAS = {"C11": ("SafeOps", "OpResult", "NoFalseUnimplemented", "DispatchLive", "NoneIsUnimplemented"), "C01": ("DispatchLive",),
+                # C12: the state a replacing registration publishes is one revision's, not a mixture of two
+                "C12": ("DispatchLive", "NoFalseUnimplemented")}
 
 
 def rev_violations(prop, tier, scratch, harness, seed, replay_cases=None):
@@ -224,7 +226,7 @@ def run(prop, tier, replay=None):
                 hists, stat, failed, trace = fh.result()
         viol, known = judge(prop, failed, hists, seed)
         rev_steps = 0
-        if prop == "C11" and not replay:
+        if prop in ("C11", "C12") and not replay:
             rv, rstat = rev_violations(prop, tier, scratch, harness, seed)
             rev_steps = rstat["steps"]
             for key, v in rv.items():
